@@ -295,3 +295,48 @@ void h_CodePPSyms(void) {
     VREACH("end");
 }
 #endif
+
+/* ---- C10: SAVE / RESTORE -----------------------------------------------------------------------------------
+ * SAVE pushes the CPU, the active segment and the listing state; RESTORE reinstates exactly what the matching SAVE
+ * stored (whatever was changed in between), forces a new record if the segment changes, re-selects the CPU only if it
+ * differs, and an unmatched RESTORE is an error that changes nothing. */
+#ifdef VERIF_SAVE
+#include "strcomp.h"
+#include "lstmacroexp.h"
+static int g_setcpu_calls; static CPUVar g_setcpu_cpu; static int g_liston_entered; static long long g_liston_val; static int g_lme, g_lme_set;
+void verif_SetCPUByType(CPUVar NewCPU, const struct sStrComp* pCPUArgs) { (void)pCPUArgs; g_setcpu_calls++; g_setcpu_cpu = NewCPU; MomCPU = NewCPU; }
+char* as_strdup(char const* s) { char* d = malloc(4); VASSUME(d != NULL); d[0] = s ? s[0] : 0; d[1] = 0; return d; }
+tLstMacroExp GetLstMacroExp(void) { return (tLstMacroExp)g_lme; }
+void SetLstMacroExp(tLstMacroExp NewMacroExp) { g_lme = (int)NewMacroExp; g_lme_set++; }
+void StrCompMkTemp(tStrComp* pComp, char* pStr, size_t capacity) { pComp->str.p_str = pStr; pComp->str.capacity = capacity; pComp->str.dynamic = 0; }
+size_t strmaxcpy(char* dest, char const* src, size_t Max) { size_t n = 0; if (!Max) return 0; while (n < 8 && src[n] && n + 1 < Max) { dest[n] = src[n]; n++; } dest[n] = 0; return n; }
+struct sSymbolEntry* EnterIntSymbolWithFlags(const struct sStrComp* pName, LargeInt Wert, as_addrspace_t addrspace, Boolean MayChange, tSymbolFlags Flags) {
+    (void)addrspace; (void)MayChange; (void)Flags; if (pName->str.p_str[0] == 'L') { g_liston_entered++; g_liston_val = Wert; } return NULL;
+}
+void h_SAVE_RESTORE(void) {
+    static char cpuargs[2]; PSaveState below; CPUVar cpu0; Byte pc0, lo0, dp0; int lme0; unsigned long ec; void* tt0;
+    VND(ActPC, uchar); VASSUME(ActPC < SegCountPlusStruct); VND(MomCPU, int); VND(ListOn, uchar); VND(g_lme, int); VND(DontPrint, uchar); VASSUME(DontPrint <= 1);
+    cpuargs[0] = 'a'; cpuargs[1] = 0; MomCPUArgs = cpuargs; ArgCnt = 0; FirstSaveState = NULL; below = FirstSaveState;
+    VND(g_err_cnt, ulong); VASSUME(g_err_cnt < 1000000); ec = g_err_cnt;
+    cpu0 = MomCPU; pc0 = ActPC; lo0 = ListOn; lme0 = g_lme; tt0 = CurrTransTable;
+    CodeSAVE(0);
+    VPOST(FirstSaveState != NULL && FirstSaveState->Next == below && FirstSaveState->SaveCPU == cpu0 && FirstSaveState->SavePC == pc0 && FirstSaveState->SaveListOn == lo0,
+          "C10: SAVE pushes the CPU, the active segment and the listing switch");
+    /* anything may happen between SAVE and RESTORE */
+    VND(ActPC, uchar); VASSUME(ActPC < SegCountPlusStruct); VND(MomCPU, int); VND(ListOn, uchar); VND(g_lme, int); VND(DontPrint, uchar); VASSUME(DontPrint <= 1);
+    { Byte pc1 = ActPC; CPUVar cpu1 = MomCPU; dp0 = DontPrint;
+      g_setcpu_calls = 0; g_liston_entered = 0; g_lme_set = 0;
+      CodeRESTORE(0);
+      VPOST(ActPC == pc0, "C10: RESTORE reinstates the segment that was active at the matching SAVE");
+      VPOST(DontPrint == ((pc1 != pc0) ? 1 : dp0), "C10: a segment change by RESTORE starts a new record (reservation flag), no change leaves the flag alone");
+      VPOST(MomCPU == cpu0 && g_setcpu_calls == ((cpu1 != cpu0) ? 1 : 0) && (cpu1 == cpu0 || g_setcpu_cpu == cpu0), "C10: RESTORE re-selects the saved CPU exactly when it differs from the current one");
+      VPOST(ListOn == lo0 && g_liston_entered == 1 && g_liston_val == lo0 && g_lme == lme0 && g_lme_set == 1, "C10: RESTORE reinstates the listing state (LISTON symbol, macro expansion mode)");
+      VPOST(FirstSaveState == below && g_err_cnt == ec, "C10: RESTORE pops exactly the frame of the matching SAVE"); }
+    /* one RESTORE too many */
+    { Byte pc2 = ActPC; CPUVar cpu2 = MomCPU;
+      CodeRESTORE(0);
+      VPOST(g_err_cnt == ec + 1 && g_err_last == ErrNum_NoSaveFrame && ActPC == pc2 && MomCPU == cpu2 && FirstSaveState == NULL, "C10: RESTORE without SAVE is an error and changes nothing"); }
+    (void)tt0;
+    VREACH("end");
+}
+#endif
